@@ -2,6 +2,7 @@
 from .inv_base import InvProp
 from ..prng import Rng
 from .. import geninv as GI
+from .. import genv as G
 from .. import geninv2 as GI2
 from .. import core
 from .c01 import inv, cls
@@ -86,6 +87,19 @@ class C13(InvProp):
             c = GI2.broken_file_among_good(Rng(seed, "C13:broken", j))
             c.pop("repeat", None)
             yield c
+        for j in range(40 if tier == "quick" else 800):
+            # the same strings are class names AND application names (a class `nginx` enabling the application `nginx`),
+            # on several nodes: the two indexes are built independently of each other
+            rr = Rng(seed, "C13:samename", j)
+            names = ["nginx", "mon", "db", "web"]
+            files = []
+            for nm in names:
+                apps = [nm] + ([rr.choice(names)] if rr.chance(1, 2) else [])
+                files.append({"path": "classes/%s.yml" % nm, "content": {"classes": [], "applications": apps, "parameters": G.enc({nm: 1})}})
+            for k in range(rr.range(2, 7)):
+                files.append({"path": "nodes/w%d.yml" % k, "content": {"classes": rr.shuffle(list(names))[: rr.range(1, 3)],
+                                                                        "applications": [rr.choice(names + ["solo"])] if rr.chance(1, 2) else []}})
+            yield {"op": "inventory", "config": {}, "files": files, "fam": "same_names"}
         N = 200 if tier == "quick" else 5000
         for i in range(N):
             r = Rng(seed, "C13", i)
